@@ -1876,12 +1876,44 @@ class SequenceOfAndSetOfBase(base.ConstructedAsn1Type):
             When idx > len(self)
         """
         if isinstance(idx, slice):
-            indices = tuple(range(len(self)))
-            startIdx = indices and indices[idx][0] or 0
+            # Python list semantics: the replaced stretch and its
+            # replacement may differ in length, what follows moves along
+            start, stop, step = idx.indices(len(self))
+
+            if step != 1:
+                raise error.PyAsn1Error(
+                    'Extended slices are not supported')
+
+            stop = max(start, stop)
+
+            # type-check / cast all new components before touching anything
+            replacement = self.clone().clear()
             for subIdx, subValue in enumerate(value):
-                self.setComponentByPosition(
-                    startIdx + subIdx, subValue, verifyConstraints,
+                replacement.setComponentByPosition(
+                    subIdx, subValue, verifyConstraints,
                     matchTags, matchConstraints)
+
+            replacement = replacement.components
+
+            shift = len(replacement) - (stop - start)
+
+            componentValues = {}
+
+            if self._componentValues is not noValue:
+                for subIdx, subValue in self._componentValues.items():
+                    if subIdx < start:
+                        componentValues[subIdx] = subValue
+
+                    elif subIdx >= stop:
+                        componentValues[subIdx + shift] = subValue
+
+            componentValues.update(
+                [(start + subIdx, subValue)
+                 for subIdx, subValue in enumerate(replacement)])
+
+            # keep the mapping in positional order like append() does
+            self._componentValues = dict(sorted(componentValues.items()))
+
             return self
 
         if idx < 0:
